@@ -81,7 +81,11 @@ func worldSpec(rootComps []string) map[string]string {
 	spec := map[string]string{}
 	for i := range rootComps {
 		level := strings.Join(rootComps[:i], "/")
-		for _, rel := range []string{"s.txt", "b", "a/a", "in.txt", rootComps[i] + "x/s.txt"} {
+		rels := []string{"s.txt", "b", "a/a", "in.txt", rootComps[i] + "x/s.txt"}
+		if len(rootComps)-i > 3 {
+			rels = rels[:1] // far above the root one sentinel per level is enough
+		}
+		for _, rel := range rels {
 			k := joinKey(level, rel)
 			spec[k] = contentFor(k)
 		}
@@ -147,6 +151,64 @@ func (w *world) rebuild() {
 	if files != len(spec) {
 		harness("world %s: %d objects, specification has %d", w.name, files, len(spec))
 	}
+}
+
+// restore brings a world that an operation changed back to its pristine state. Disk worlds are
+// repaired incrementally (only what differs), then verified; anything else is rebuilt.
+func (w *world) restore(after map[string]string) {
+	if !w.disk {
+		w.rebuild()
+		return
+	}
+	var extra []string
+	for k := range after {
+		if _, ok := w.pristine[k]; !ok {
+			extra = append(extra, k)
+		}
+	}
+	sort.Sort(sort.Reverse(sort.StringSlice(extra))) // children before their directory
+	for _, k := range extra {
+		if err := os.RemoveAll(filepath.Join(w.base, filepath.FromSlash(k))); err != nil {
+			harness("repair: %v", err)
+		}
+	}
+	for _, k := range sortedKeys(w.pristine) { // directories before their children
+		want := w.pristine[k]
+		got, ok := after[k]
+		if ok && got == want {
+			continue
+		}
+		full := filepath.Join(w.base, filepath.FromSlash(k))
+		if ok && (got == dirMark) != (want == dirMark) {
+			if err := os.RemoveAll(full); err != nil {
+				harness("repair: %v", err)
+			}
+		}
+		if want == dirMark {
+			if err := os.MkdirAll(full, 0o755); err != nil {
+				harness("repair: %v", err)
+			}
+			continue
+		}
+		if err := os.MkdirAll(filepath.Dir(full), 0o755); err != nil {
+			harness("repair: %v", err)
+		}
+		if err := os.WriteFile(full, []byte(want), 0o644); err != nil {
+			harness("repair: %v", err)
+		}
+	}
+	now := w.snapshot()
+	same := len(now) == len(w.pristine)
+	for k, v := range w.pristine {
+		if now[k] != v {
+			same = false
+		}
+	}
+	if !same {
+		w.rebuild()
+		return
+	}
+	w.dirty = false
 }
 
 // snapshot lists the entire world: key -> content; directories (disk) -> dirMark.
@@ -639,6 +701,8 @@ func judge(s *subject, c c13Case, classes func(string)) (key, msg string) {
 	}
 	if clean {
 		w.dirty = false
+	} else {
+		defer w.restore(after)
 	}
 	// whatever a walk reports must be an object inside the root (also when the walk failed later)
 	for _, q := range res.visited {
@@ -775,10 +839,12 @@ func checkFileNode(t evid.TB, r *evid.Recorder, p string) bool {
 	case verdict.Hostile() && err == nil:
 		r.Fail(t, acceptedKey(norm, verdict), desc+"; a manifest path that leaves the module root must be rejected", c)
 		return false
-	case err == nil && (node.Path() != norm || p != norm || norm == "."):
+	case err == nil && (node.Path() != norm || p != norm):
 		// documented: "The path is validated to be normalized and non-empty"
 		r.Fail(t, "filenode-not-normalised", fmt.Sprintf("%s and node.Path()=%q", desc, node.Path()), c)
 		return false
+	case err == nil && norm == ".":
+		r.Class("filenode-accepted-root") // "." is contained; whether a manifest may name the root is not C13's business
 	case err == nil:
 		r.Class("filenode-accepted")
 	default:
